@@ -12,7 +12,7 @@ from hypothesis import strategies as st
 from ..common import Result, scratch_dir
 from ..hyp import campaign
 from ..lib import READ_APIS, load, new_table, run_read
-from ..reader import DirFS, HINT, read_view, reachable_files, rows_multiset, view_digest, current_rows
+from ..reader import DirFS, HINT, ReadError, read_view, reachable_files, rows_multiset, view_digest, current_rows
 from .. import tbl
 
 PROP = "C11"
@@ -98,17 +98,34 @@ def represent(typ, v):
         if isinstance(v, str):
             return ("either", v.encode("utf-8"))
         return REJECT
+    # integers are the physical representation of the temporal types (days / microseconds since the epoch / since midnight):
+    # they may be accepted, and then mean exactly that instant - outside the range the column's python type can express
+    # they cannot be read back and must be rejected
     if typ == "date":
         if isinstance(v, dt.date) and not isinstance(v, dt.datetime):
             return ("exact", v)
+        if isinstance(v, int):
+            try:
+                return ("either", dt.date(1970, 1, 1) + dt.timedelta(days=v))
+            except OverflowError:
+                return REJECT
         return REJECT
     if typ == "timestamp":
         if isinstance(v, dt.datetime) and v.tzinfo is None:
             return ("exact", v)
+        if isinstance(v, int):
+            try:
+                return ("either", dt.datetime(1970, 1, 1) + dt.timedelta(microseconds=v))
+            except OverflowError:
+                return REJECT
         return REJECT
     if typ == "time":
         if isinstance(v, dt.time):
             return ("exact", v)
+        if isinstance(v, int):
+            if 0 <= v < 86400 * 10**6:
+                return ("either", (dt.datetime(1970, 1, 1) + dt.timedelta(microseconds=v)).time())
+            return REJECT
         return REJECT
     raise ValueError(typ)
 
@@ -122,9 +139,10 @@ WRONG = {
     "string": [1, 1.5, b"\xff\xfe", b"ok", dt.date(2020, 1, 1)],
     "uuid": [1, 1.5, b"ok"],
     "binary": [1, 1.5, "txt"],
-    "date": ["2020-01-01", 1.5, 0.1, dt.time(1, 2, 3)],
-    "timestamp": ["2020-01-01T00:00:00", 1.5, dt.date(2020, 1, 1), dt.time(1, 2)],
-    "time": ["01:02:03", 1.5, 0.25, dt.date(2020, 1, 1)],
+    "date": ["2020-01-01", 1.5, 0.1, dt.time(1, 2, 3), 5, -1, 2932896, 2932897, 10_000_000, -719162, -719163, 2**31],
+    "timestamp": ["2020-01-01T00:00:00", 1.5, dt.date(2020, 1, 1), dt.time(1, 2), 5, -1, 253402300799999999, 253402300800000000, 2**62,
+                  -62135596800000000, -62135596800000001, 2**63],
+    "time": ["01:02:03", 1.5, 0.25, dt.date(2020, 1, 1), 5, 86399999999, 86400000000, -1, 2**63],
 }
 
 SCHEMA_VARIANTS = ["omitted", "omitted", "identical", "copy", "reordered", "renumbered", "type", "nullability", "extra", "missing", "other_id"]
@@ -372,7 +390,12 @@ def check_history(case):
                     ok, exc = True, None
                 except Exception as e:  # noqa
                     ok, exc = False, e
-            after = _state(root)
+            try:
+                after = _state(root)
+            except ReadError as e:
+                out["violations"].append((f"unreadable-after-append/{step['op']}:{variant}" if ok else f"rejected-left-trace/{step['op']}",
+                                          f"step {n} ({step['op']}, {variant}) {'was accepted' if ok else 'raised ' + type(exc).__name__} and the independent reader can no longer read the table: {e}; rows={step['rows']!r}"[:600]))
+                return out
             if not ok:
                 out["labels"].append("rejected")
                 if before[0] != after[0] or before[1] != after[1] or before[2] != after[2]:
